@@ -31,6 +31,8 @@ where
     let idx = archive.build_source_index();
     let total = archive.total_source_size();
     let mut file = MemFile::new(prior, None);
+    // (an output that takes at most 5 bytes per write call: the writer has to complete its writes)
+    if total % 3 == 1 { file.short = Some(5); }
     let output_index = if inplace {
         // chunk_index_from_readable
         let cfg = archive.chunker_config().clone();
